@@ -31,6 +31,7 @@ RuntimeErrorDescriptor classify_runtime_error(const std::string &message,
     std::string lowered = to_lower_copy(message);
 
     if (lowered.find("division by zero") != std::string::npos ||
+        lowered.find("modulo by zero") != std::string::npos ||
         (lowered.find("divide") != std::string::npos &&
          lowered.find("zero") != std::string::npos)) {
         return {"DivisionByZeroError", message};
